@@ -1,6 +1,7 @@
 package main
 
 import (
+	"os"
 	"fmt"
 	"go/ast"
 	"go/constant"
@@ -1342,6 +1343,16 @@ func (st *State) methodSymbol(e *Env, name string, sorts []Sort, rs Sort, ifaceT
 			}
 			l, r := app(rs, sym, callA...), app(rs, pv.sym, callA...)
 			st.sc.emit("(assert (forall (%s) (! (=> %s (= %s %s)) :pattern (%s))))", strings.Join(argB, " "), or(conds...).S, l.S, r.S, l.S)
+		}
+		// term chain: an application of the new symbol makes the same application of its predecessor a
+		// ground term (through an otherwise unconstrained predicate), so that facts stated over the earlier
+		// heap (quantified hypotheses triggered by the earlier symbol) are instantiated by E-matching without
+		// depending on the solver's search order. Nothing is assumed: touch.* is uninterpreted.
+		if len(prev) > 0 && os.Getenv("GOVC_NOTOUCH") == "" {
+			tn := "touch." + string(rs)
+			st.sc.declFun(tn, []Sort{rs}, SBool)
+			l, r := app(rs, sym, callA...), app(rs, prev[len(prev)-1].sym, callA...)
+			st.sc.emit("(assert (forall (%s) (! (%s %s) :pattern (%s))))", strings.Join(argB, " "), tn, r.S, l.S)
 		}
 		if st.msyms == nil {
 			st.msyms = map[string][]msymRec{}
